@@ -29,10 +29,13 @@ fn dispatch(op: &str, a: &[&str]) -> R {
     let (family, rest) = op.split_once('.').ok_or(Fail::BadReq)?;
     match family {
         "fe" => ops_field::fe_op(rest, a),
-        "fel51" => ops_field::fel_op(51, false, rest, a),
-        "fel26" => ops_field::fel_op(26, false, rest, a),
-        "felv51" => ops_field::fel_op(51, true, rest, a),
-        "felv26" => ops_field::fel_op(26, true, rest, a),
+        "fel51" => ops_field::fel_op(51, false, false, rest, a),
+        "fel26" => ops_field::fel_op(26, false, false, rest, a),
+        "felv51" => ops_field::fel_op(51, true, false, rest, a),
+        "felv26" => ops_field::fel_op(26, true, false, rest, a),
+        // limb-exact ops of the fiat wrapper backends (answered by fiat drivers only)
+        "felF51" => ops_field::fel_op(51, false, true, rest, a),
+        "felF26" => ops_field::fel_op(26, false, true, rest, a),
         "vfe" => {
             let (isa, vop) = rest.split_once('.').ok_or(Fail::BadReq)?;
             ops_field::vfe_op(false, isa, vop, a)
